@@ -36,6 +36,12 @@ FAMILIES = {
     "conformRecv": {"quick": 80, "thorough": 3000},  # TLC simulation runs of MC_Recv replayed on the real server (byte-exact)  # TLC simulation runs of MC_Send (x ~3 behaviours each) replayed on the real client
 }
 
+# Families whose recorded traces are NOT judged by the wire / API contract monitors. conformPush drives a hostile peer against ids that
+# push_request() has consumed but that never reached the wire (queued or dropped PUSH_PROMISE): the wire contract has no notion of such
+# ids (it would have to mirror h2's private id allocation), so its verdicts there are not sound. What decides those behaviours is the
+# implementation model: its invariants under TLC (MC_Push) and the comparison of every frame, call result and record with the code.
+CONFORM_ONLY = {"conformPush"}
+
 SEND_SLICE = {"module": "MC_Send", "cfg_quick": "MC_Send_quick.cfg", "cfg_thorough": "MC_Send_thorough.cfg",
               "constants": "2 streams, IW=2 CW=3 MF=2 units, sends {3}, WU {2}, SETTINGS {0,3}, reserve {2}, 1 reset; every interleaving with a frame parked in the codec",
               "timeout_thorough": 2400, "coverage": False}
